@@ -887,6 +887,17 @@ func (iv *Inv) discharge(s invSite, reach map[*ssa.Function]*ssa.Function) {
 		iv.r.OK(iv.rule, key, pos, how)
 		return
 	}
+	// a divisor handed in as a parameter (a formula shared by several callers): decided at every call site on the trees
+	if s.class == "quo" || s.class == "intdiv" {
+		if ok2, vet, how2 := iv.divisorAtCallers(s); ok2 {
+			if vet {
+				iv.r.Assume(iv.rule, key, pos, how2)
+			} else {
+				iv.r.OK(iv.rule, key, pos, how2)
+			}
+			return
+		}
+	}
 	// numeric vetting arguments are keyed by the semantic signature of the operand (function-independent)
 	for i, sk := range iv.semKeys(s) {
 		if os.Getenv("C4E_DEBUG") != "" && i >= 0 {
@@ -908,6 +919,78 @@ func (iv *Inv) discharge(s invSite, reach map[*ssa.Function]*ssa.Function) {
 		detail = "no recognised guard, validated field, constant or well-formed origin discharges this panic-capable operation"
 	}
 	iv.r.Bad(iv.rule, key, pos, detail+"; reached via "+PathTo(reach, s.fn))
+}
+
+// divisorAtCallers: the divisor of s is a parameter of the function; at every call site on the inventoried trees the
+// argument is a non-zero constant, tested non-zero before the call, a field validated positive, or an expression with
+// a vetted semantic signature. vet reports that a vetted argument was used.
+func (iv *Inv) divisorAtCallers(s invSite) (ok bool, vet bool, how string) {
+	var d ssa.Value
+	if s.class == "intdiv" {
+		d = s.instr.(*ssa.BinOp).Y
+	} else {
+		a := s.instr.(ssa.CallInstruction).Common().Args
+		d = a[len(a)-1]
+	}
+	prm, isP := stripConv(d).(*ssa.Parameter)
+	if !isP || prm.Parent() != s.fn {
+		return false, false, ""
+	}
+	idx := -1
+	for i, q := range s.fn.Params {
+		if q == prm {
+			idx = i
+		}
+	}
+	callers := iv.treeCallers(s.fn)
+	if idx < 0 || len(callers) < 2 {
+		return false, false, "" // a single caller is covered by the lifted semantic signature
+	}
+	what := shortCallee(s.what)
+	if i := strings.LastIndex(what, "."); i >= 0 {
+		what = what[i+1:]
+	}
+	if ac := arithClass[what]; ac != "" {
+		what = ac
+	}
+	var hows []string
+	for _, cs := range callers {
+		if cs.Common().IsInvoke() || idx >= len(cs.Common().Args) {
+			return false, false, ""
+		}
+		arg := stripConv(cs.Common().Args[idx])
+		at := "at the call in " + funcName(cs.Caller)
+		if k, isK := arg.(*ssa.Const); isK && k.Value != nil && constant.Sign(constant.ToInt(k.Value)) != 0 {
+			hows = append(hows, "g3: constant non-zero divisor "+at)
+			continue
+		}
+		if MustPass(cs.Caller, nonZeroEdges(cs.Caller, arg), cs.Instr.Block()) {
+			hows = append(hows, "g1: divisor tested non-zero "+at)
+			continue
+		}
+		if T, f, isF := fieldOfValue(arg); isF {
+			if ok2, h := iv.fieldValidated(T, f, reqPositive); ok2 {
+				hows = append(hows, "g2: divisor is "+T.Obj().Name()+"."+f+", validated positive by "+h+" "+at)
+				continue
+			}
+		}
+		found := false
+		for l := 0; l <= 2 && !found; l++ {
+			sk := s.class + " " + what + " | " + semSig(iv.w, cs.Caller, l, cs.Common().Args[idx])
+			if os.Getenv("C4E_DEBUG") != "" {
+				fmt.Printf("SEM-AT-CALLER\t%q\t%q\n", iv.key(s), sk)
+			}
+			if reason, isVetted := vettedSemantic[sk]; isVetted {
+				iv.usedSem[sk] = true
+				hows = append(hows, "vetted ("+sk+") "+at+": "+reason)
+				vet, found = true, true
+			}
+		}
+		if !found {
+			return false, false, ""
+		}
+	}
+	return true, vet, strings.Join(hows, "; ")
 }
 
 // Finish reports vetted entries that no longer match any site (the table must stay closed and current).
